@@ -25,7 +25,7 @@ ASSUMPTIONS = ["non-interference of a joint step = serialisability of its member
                "executing agent of a call = its first argument"]
 REAL_VS_STUB = {"real": ["PlanConverter.convert_plan/export_plan, apply_actions, MultiAgentTrajectoryExporter.parse_plan, "
                          "Operator, parsers"], "stub": ["__hash__ seam", "builtins.open seam"]}
-TECHNIQUE = "deterministic simulation: seeded sequential-plan histories converted to joint plans; conservation/order/serialisability/final-state history check by a reference interpreter"
+TECHNIQUE = "deterministic simulation: seeded sequential-plan histories (incl. 300-600 step plans) converted to joint plans, converter re-used across in-place model revisions, two threads sharing a converter on two problems, renaming metamorphosis; conservation/order/serialisability/final-state history check by a reference interpreter"
 DESIGN_REF = "DESIGN.md §5 C15"
 LEVEL_TEXT = ("seeded exploration of valid sequential multi-agent plans; the converter's output is checked as a history "
               "(conservation, per-agent order, slot discipline, serialisability of each step, same final state) and re-executed "
